@@ -20,7 +20,7 @@ run="^($(grep -o "^func Test[A-Za-z0-9_]*" $src/demo_test.go | sed 's/func //' |
 guard=$(grep -m1 '^// +build ' $src/demo_test.go | awk '{print $3}')
 res_pristine=""; res_mut=""; tagsfail=""
 cp $src/demo_test.go $wt/$dir/zz_seeded_demo_test.go
-for tags in "$guard" "$guard,force32bit" "$guard,noasm"; do
+for tags in "$guard" "$guard,force32bit" "$guard,noasm" $MORE_TAGS; do
   (cd $wt/$dir && go test -vet=off -count=1 $EXTRA_TEST_FLAGS -tags "$tags" -run "$run" . >/tmp/sw-out-p 2>&1) && res_pristine="$res_pristine pass[$tags]" || res_pristine="$res_pristine FAIL[$tags]"
 done
 rm $wt/$dir/zz_seeded_demo_test.go
@@ -30,7 +30,7 @@ suite=skipped
 if [ $applies = yes ]; then
   (cd $wt && go build ./... && go test -vet=off -count=1 ./... >/tmp/sw-out-s 2>&1) && suite=pass || suite=FAIL
   cp $src/demo_test.go $wt/$dir/zz_seeded_demo_test.go
-  for tags in "$guard" "$guard,force32bit" "$guard,noasm"; do
+  for tags in "$guard" "$guard,force32bit" "$guard,noasm" $MORE_TAGS; do
     (cd $wt/$dir && go test -vet=off -count=1 $EXTRA_TEST_FLAGS -tags "$tags" -run "$run" . >/tmp/sw-out-m 2>&1) && res_mut="$res_mut pass[$tags]" || { res_mut="$res_mut FAIL[$tags]"; tagsfail="$tagsfail,$tags"; cp /tmp/sw-out-m /tmp/sw-out-mfail; }
   done
 fi
